@@ -43,6 +43,12 @@ func LaplacianSmooth(m modeling.Mesh, attribute string, iterations int, smoothin
 
 	for i := 0; i < iterations; i++ {
 		for vi, vertex := range vertices {
+			// a vertex without neighbours (not referenced by any primitive)
+			// has nothing to be averaged with and stays where it is
+			if lut.Count(vi) == 0 {
+				continue
+			}
+
 			var sum vector3.Float64
 
 			for vn := range lut.Lookup(vi) {
@@ -77,6 +83,10 @@ func LaplacianSmoothAlongAxis(m modeling.Mesh, attribute string, iterations int,
 
 	for i := 0; i < iterations; i++ {
 		for vi, vertex := range vertices {
+			if lut.Count(vi) == 0 {
+				continue
+			}
+
 			var sum vector3.Float64
 
 			for vn := range lut.Lookup(vi) {
